@@ -200,7 +200,9 @@ end source
 /-- `main.go` fills every slot of the client, marshaller, partitioner and batcher configuration maps from the option of
 the SAME name (through `GetPartitionMethod` / `GetRoutingMethod` for the two named methods), each local used for it
 is assigned exactly once; and `app.New` reads each slot into a local that is assigned exactly once before it is
-handed on (`runner_wiring_as_modelled`, C01, has the constructor calls). From there on the values are followed at
+handed on (`runner_wiring_as_modelled`, C01, has the constructor calls); below `app.New`, every argument of `manager.New`,
+`factory.NewTransport` and `batcher.NewBatcher` is listed against the parameter it fills (same value under at most a new
+name, never assigned to in between, except the batch factory chosen by the transport type). The same chain is followed at
 run time: the `plumbing` component reads back what the stages were built with. -/
 theorem options_reach_their_own_slot :
     PgBifrost.Gen.MainOpts.slots = [
@@ -238,6 +240,48 @@ theorem options_reach_their_own_slot :
       ("regex", "filterConfig", "\"regex\"", true),
       ("tablelist", "filterConfig", "\"tablelist\"", true),
       ("whitelist", "filterConfig", "\"whitelist\"", true)
-    ] := ⟨rfl, rfl⟩
+    ] ∧
+    PgBifrost.Gen.MainOpts.passes = [
+      ("manager.New", "shutdownHandler", "shutdownHandler"),
+      ("manager.New", "inputChan", "marshallerInstance.OutputChan"),
+      ("manager.New", "txnsSeen", "txnsSeen"),
+      ("manager.New", "txnsWritten", "txnsWritten"),
+      ("manager.New", "statsChan", "statsChan"),
+      ("manager.New", "transportType", "transportType"),
+      ("manager.New", "transportConfig", "transportConfig"),
+      ("manager.New", "flushBatchUpdateAge", "batchFlushUpdateAge"),
+      ("manager.New", "flushBatchMaxAge", "batchFlushMaxAge"),
+      ("manager.New", "batchQueueDepth", "batchQueueDepth"),
+      ("manager.New", "batcherTickRate", "batcherTickRate"),
+      ("manager.New", "batcherMemorySoftLimit", "batcherMemorySoftLimit"),
+      ("manager.New", "routingMethod", "batcherRoutingMethod"),
+      ("factory.NewTransport", "shutdownHandler", "shutdownHandler"),
+      ("factory.NewTransport", "transportType", "transportType"),
+      ("factory.NewTransport", "transportConfig", "transportConfig"),
+      ("factory.NewTransport", "inputChan", "inputChan"),
+      ("factory.NewTransport", "txnsSeen", "txnsSeen"),
+      ("factory.NewTransport", "txnsWritten", "txnsWritten"),
+      ("factory.NewTransport", "statsChan", "statsChan"),
+      ("factory.NewTransport", "workers", "workerNum"),
+      ("factory.NewTransport", "flushBatchUpdateAge", "flushBatchUpdateAge"),
+      ("factory.NewTransport", "flushBatchMaxAge", "flushBatchMaxAge"),
+      ("factory.NewTransport", "batchQueueDepth", "batchQueueDepth"),
+      ("factory.NewTransport", "batcherTickRate", "batcherTickRate"),
+      ("factory.NewTransport", "batcherMemorySoftLimit", "batcherMemorySoftLimit"),
+      ("factory.NewTransport", "routingMethod", "routingMethod"),
+      ("batcher.NewBatcher", "shutdownHandler", "shutdownHandler"),
+      ("batcher.NewBatcher", "inputChan", "inputChan"),
+      ("batcher.NewBatcher", "txnsSeenChan", "txnsSeen"),
+      ("batcher.NewBatcher", "txnsWritten", "txnsWritten"),
+      ("batcher.NewBatcher", "statsChan", "statsChan"),
+      ("batcher.NewBatcher", "tickRate", "batcherTickRate"),
+      ("batcher.NewBatcher", "batchFactory", "reassigned:batchFactory"),
+      ("batcher.NewBatcher", "workers", "workers"),
+      ("batcher.NewBatcher", "flushBatchUpdateAge", "flushBatchUpdateAge"),
+      ("batcher.NewBatcher", "flushBatchMaxAge", "flushBatchMaxAge"),
+      ("batcher.NewBatcher", "batchQueueDepth", "batchQueueDepth"),
+      ("batcher.NewBatcher", "maxMemoryBytes", "batcherMemorySoftLimit"),
+      ("batcher.NewBatcher", "routingMethod", "routingMethod")
+    ] := ⟨rfl, rfl, rfl⟩
 
 end PgBifrost.Props.C16
